@@ -8,8 +8,9 @@ MC_Vals == {V1, V2}
 
 (* lowered boundary: lua.MaxArrayIndex = 5, integer keys straddle it *)
 Lo_IntKeys == {-1, 0, 1, 2, 3, 4, 5, 6}
-Lo_OtherKeys == {<<"f", 1>>, <<"s", "a">>, <<"s", "b">>, <<"b", TRUE>>, <<"t", 1>>}
-Lo_OtherKeysSmall == {<<"f", 1>>, <<"s", "a">>, <<"b", TRUE>>}
+Lo_OtherKeys == {<<"f", 1>>, <<"s", "a">>, <<"s", "b">>, <<"b", TRUE>>, <<"b", FALSE>>, <<"t", 1>>}
+(* the boolean key of the small universe is false: a key that is itself falsy (a traversal must not take it for "no key") *)
+Lo_OtherKeysSmall == {<<"f", 1>>, <<"s", "a">>, <<"b", FALSE>>}
 
 (* default boundary 2^26: keys at and above it live in the hash part *)
 Hi_IntKeys == {-1, 0, 1, 2, 3, 4, 67108864, 67108865}
